@@ -78,7 +78,8 @@ mod driver_proofs {
     }
 
     /// a struct of K members: C numbers as in the tracker harness, then the REAL driver region decides padding / repr attributes
-    fn struct_case<const K: usize, const P: usize, const EA: usize>(al: [usize; K]) {
+    /// SA = alignment given to the whole struct by __attribute__((aligned(SA))) (0: none)
+    fn struct_case<const K: usize, const P: usize, const EA: usize, const SA: usize>(al: [usize; K]) {
         let mut sz = [0usize; K]; let mut coff = [0usize; K];
         let mut cur = 0usize; let mut sa = 1usize; let mut i = 0;
         while i < K {
@@ -87,8 +88,9 @@ mod driver_proofs {
             let mut ea = al[i]; if EA != 0 && i == K - 1 { ea = mx(ea, EA); } if P != 0 { ea = mn(ea, P); }
             coff[i] = up(cur, ea); cur = coff[i] + sz[i]; sa = mx(sa, ea); i += 1;
         }
+        if SA != 0 { sa = mx(sa, SA); }
         let csize = up(cur, sa);
-        let packed_attr: bool = if P == 1 { kani::any() } else { false };
+        let packed_attr: bool = if P == 1 { if SA != 0 { true } else { kani::any() } } else { false };   // with aligned(SA) only the attribute form keeps the members packed
         let ctx = BindgenContext { opts: Options { force_explicit_padding: kani::any(), enable_cxx_namespaces: kani::any(), flexarray_dst: false }, ptr_size: 8 };
         let comp = CompInfo { union_: false, rust_union: (false, false) };
         let layout = Layout::new(csize, sa);
